@@ -167,10 +167,15 @@ class Program:
                 if v == 0:
                     continue
             fs = set()
+            try:
+                from cvocab import CVOCAB
+            except Exception:
+                CVOCAB = set()
+            full = name not in CVOCAB   # a helper the rules do not know: keep what it established about its own locals too
             for f, br in g.facts_at(n):
                 ids = set(re.findall(r"(?<![\w>.])([A-Za-z_]\w*)(?!\w*\()", re.sub(r"[A-Za-z_]\w*\(", "(", f)))
                 ids -= set(self.enums) | {"sizeof"}
-                if ids <= params:
+                if ids <= params or full:
                     fs.add(f)
             common = fs if common is None else (common & fs)
         self._sum[key] = sorted(common or [])
@@ -500,6 +505,21 @@ class CFG:
             return f + brk_list
         if k == "ReturnStmt":
             inner = [c for c in s.get("inner", []) or [] if isinstance(c, dict)]
+            if inner:
+                top = strip(inner[0])
+                if (top.get("kind") == "BinaryOperator" and top.get("opcode") in ("&&", "||")) or \
+                        (top.get("kind") == "UnaryOperator" and top.get("opcode") == "!"):
+                    # `return a && b;` of a predicate helper = `if (a && b) return 1; return 0;`
+                    # (so that what holds when it answers true is visible as branch facts)
+                    t, f = self.cond(inner[0], preds)
+                    for exits, val in ((t, "1"), (f, "0")):
+                        if not exits:
+                            continue
+                        lit = {"kind": "IntegerLiteral", "value": val, "_line": s.get("_line"), "_file": s.get("_file"), "type": {"qualType": "int"}}
+                        n = self.new("ret", lit, s.get("_line"), s)
+                        self.seq(exits, n)
+                        self.link(n, self.exit)
+                    return []
             n = self.new("ret", inner[0] if inner else None, s.get("_line"), s)
             self.seq(preds, n)
             self.link(n, self.exit)
